@@ -1,10 +1,10 @@
 #!/bin/bash
-# usage: tools/run_seeded.sh <seed-dir-name> [property ...]   applies the seeded change to /repo, runs the checks, reverts.
+# usage: tools/run_seeded.sh <seed-dir-name> [property ...]   applies the seeded change to /repo, runs the checks, reverts it.
 cd "$(dirname "$0")/.."
 d=seeded/$1; shift
 [ -f "$d/patch.diff" ] || { echo "no patch in $d"; exit 2; }
 git -C /repo apply "$PWD/$d/patch.diff" || { echo "patch does not apply"; exit 2; }
-trap 'git -C /repo checkout -- . >/dev/null 2>&1' EXIT
+trap 'git -C /repo apply -R "'"$PWD/$d/patch.diff"'" || echo "WARNING: could not revert patch"' EXIT
 props="$@"
 [ -z "$props" ] && props=$(python3 -c "import json;print(json.load(open('$d/meta.json'))['property'])" 2>/dev/null)
 for p in $props; do
